@@ -23,18 +23,28 @@ pub const POOL: usize = 3;
 #[repr(align(8))]
 pub struct Obj(pub u64);
 
-/// Object identities are plain numbers used as addresses: the code under proof only compares and
-/// stores these pointers, it never dereferences a `T::Base` (checked by CBMC's pointer checks: a
-/// dereference of such an address would be a failed obligation).
-pub const ADDR_STEP: usize = 0x1000;
+/// Objects are the elements of a static pool; their addresses are the pointer values the code under
+/// proof passes around (it never dereferences a `T::Base`). Pointer-typed values are kept pointer
+/// typed (address-of constants): CBMC folds comparisons of those during symbolic execution, which
+/// is what lets it see that the retry loops of compare_and_swap / rcu exit; integers cast to
+/// pointers (and pointers cast to integers) are opaque to its simplifier.
+pub static OBJS: [Obj; POOL] = [Obj(100), Obj(101), Obj(102)];
+
+pub fn ptr(i: usize) -> *const Obj {
+    &OBJS[i] as *const Obj
+}
 
 pub fn addr(i: usize) -> usize {
-    (i + 1) * ADDR_STEP
+    ptr(i) as usize
 }
 
 pub fn index_of(a: usize) -> Option<usize> {
-    if a >= ADDR_STEP && a % ADDR_STEP == 0 && a / ADDR_STEP <= POOL {
-        Some(a / ADDR_STEP - 1)
+    if a == addr(0) {
+        Some(0)
+    } else if a == addr(1) {
+        Some(1)
+    } else if a == addr(2) {
+        Some(2)
     } else {
         None
     }
@@ -149,12 +159,21 @@ fn ledger_dec(a: usize) {
 }
 
 /// The abstract counted pointer. Holding a `TP` value == owning one reference.
-pub struct TP(pub usize);
+/// `.0` is the address as a number (for contracts), `.1` the same address as a pointer (what the
+/// RefCnt conversions hand to the code under proof).
+pub struct TP(pub usize, pub *const Obj);
 
 impl TP {
     /// A new owner of object `i` (the harness accounts for it in the ledger itself).
     pub fn adopt(i: usize) -> TP {
-        TP(addr(i))
+        TP(addr(i), ptr(i))
+    }
+    /// A handle for the object at address `a`.
+    pub fn at(a: usize) -> TP {
+        match index_of(a) {
+            Some(i) => TP::adopt(i),
+            None => TP(a, a as *const Obj),
+        }
     }
     pub fn obj(&self) -> usize {
         index_of(self.0).expect("TP of a non-object")
@@ -164,7 +183,7 @@ impl TP {
 impl Clone for TP {
     fn clone(&self) -> TP {
         ledger_inc(self.0);
-        TP(self.0)
+        TP(self.0, self.1)
     }
 }
 
@@ -177,15 +196,15 @@ impl Drop for TP {
 unsafe impl RefCnt for TP {
     type Base = Obj;
     fn into_ptr(me: TP) -> *mut Obj {
-        let p = me.0;
+        let p = me.1;
         mem::forget(me);
         p as *mut Obj
     }
     fn as_ptr(me: &TP) -> *mut Obj {
-        me.0 as *mut Obj
+        me.1 as *mut Obj
     }
     unsafe fn from_ptr(ptr: *const Obj) -> TP {
-        TP(ptr as usize)
+        TP(ptr as usize, ptr)
     }
 }
 
@@ -276,7 +295,7 @@ pub struct Watch {
     pub last_rec: Rec,
 }
 
-pub const NW: usize = 10;
+pub const NW: usize = 6;
 const NOWATCH: Watch = Watch { kind: 255, addr: 0, count: 0, first: 0, last: 0, first_rec: EMPTY, last_rec: EMPTY };
 
 pub struct Monitor {
@@ -304,6 +323,9 @@ pub struct Monitor {
     pub lw1_paid_at_dec: usize,
     // reader guarantee online monitor
     pub reader_storage: usize,
+    // dedicated watches for count events (at most one object each per harness)
+    pub inc_watch: Watch,
+    pub dec_watch: Watch,
 }
 
 pub static mut MON: Monitor = Monitor {
@@ -326,6 +348,8 @@ pub static mut MON: Monitor = Monitor {
     lw1_decs: 0,
     lw1_paid_at_dec: 0,
     reader_storage: 0,
+    inc_watch: NOWATCH,
+    dec_watch: NOWATCH,
 };
 
 pub fn mon() -> &'static mut Monitor {
@@ -355,20 +379,40 @@ pub fn log_reset() {
     m.lw1_decs = 0;
     m.lw1_paid_at_dec = 0;
     m.reader_storage = 0;
+    m.inc_watch = NOWATCH;
+    m.dec_watch = NOWATCH;
 }
+
+pub const W_INC: usize = 100;
+pub const W_DEC: usize = 101;
 
 /// Registers a watch; returns its id.
 pub fn watch(kind: u8, addr: usize) -> usize {
     let m = mon();
+    let wt = Watch { kind, addr, count: 0, first: 0, last: 0, first_rec: EMPTY, last_rec: EMPTY };
+    if kind == K_INC {
+        m.inc_watch = wt;
+        return W_INC;
+    }
+    if kind == K_DEC {
+        m.dec_watch = wt;
+        return W_DEC;
+    }
     let id = m.nwatch;
     vassert!(id < NW, "too_many_watches_in_harness");
-    m.watch[id] = Watch { kind, addr, count: 0, first: 0, last: 0, first_rec: EMPTY, last_rec: EMPTY };
+    m.watch[id] = wt;
     m.nwatch += 1;
     id
 }
 
 pub fn w(id: usize) -> Watch {
-    mon().watch[id]
+    if id == W_INC {
+        mon().inc_watch
+    } else if id == W_DEC {
+        mon().dec_watch
+    } else {
+        mon().watch[id]
+    }
 }
 
 /// Track publication / payment events on these 9 slot cells.
@@ -403,32 +447,53 @@ fn kind_matches(w: u8, r: &Rec) -> bool {
 
 const NONE_MARK: usize = 0b11;
 
+fn hit(wt: &mut Watch, seq: usize, r: Rec) {
+    wt.count += 1;
+    if wt.first == 0 {
+        wt.first = seq;
+        wt.first_rec = r;
+    }
+    wt.last = seq;
+    wt.last_rec = r;
+}
+
 /// The single entry point of the monitor: called for every atomic event and every inc/dec.
 pub fn observe(r: Rec) {
     let m = mon();
     m.seq += 1;
     let seq = m.seq;
-    if r.kind < K_INC {
-        m.steps += 1;
-        if m.steps == 1 {
-            m.first = r;
+    if r.kind >= K_INC {
+        // count events: dedicated watches and the L-W1 counters only
+        if r.kind == K_INC {
+            if m.inc_watch.kind == K_INC && m.inc_watch.addr == r.addr {
+                hit(&mut m.inc_watch, seq, r);
+            }
+            if m.lw1_ptr != 0 && r.addr == m.lw1_ptr {
+                m.lw1_incs += 1;
+            }
+        } else {
+            if m.dec_watch.kind == K_DEC && m.dec_watch.addr == r.addr {
+                hit(&mut m.dec_watch, seq, r);
+            }
+            if m.lw1_ptr != 0 && r.addr == m.lw1_ptr {
+                m.lw1_decs += 1;
+                m.lw1_paid_at_dec = m.lw1_paid;
+            }
         }
-        m.last = r;
-        if is_write(&r) {
-            m.writes += 1;
-        }
+        return;
+    }
+    m.steps += 1;
+    if m.steps == 1 {
+        m.first = r;
+    }
+    m.last = r;
+    if is_write(&r) {
+        m.writes += 1;
     }
     let mut i = 0;
     while i < NW {
         if i < m.nwatch && m.watch[i].addr == r.addr && kind_matches(m.watch[i].kind, &r) {
-            let wt = &mut m.watch[i];
-            wt.count += 1;
-            if wt.first == 0 {
-                wt.first = seq;
-                wt.first_rec = r;
-            }
-            wt.last = seq;
-            wt.last_rec = r;
+            hit(&mut m.watch[i], seq, r);
         }
         i += 1;
     }
@@ -456,13 +521,6 @@ pub fn observe(r: Rec) {
     // L-W1: one increment is made before the first payment and after every payment; exactly one
     // release, after the last payment
     if m.lw1_ptr != 0 {
-        if r.kind == K_INC && r.addr == m.lw1_ptr {
-            m.lw1_incs += 1;
-        }
-        if r.kind == K_DEC && r.addr == m.lw1_ptr {
-            m.lw1_decs += 1;
-            m.lw1_paid_at_dec = m.lw1_paid;
-        }
         if (r.kind == K_CAS || r.kind == K_CASW) && r.a == m.lw1_ptr && r.b == NONE_MARK && r.addr != 0 {
             vassert!(m.lw1_decs == 0, "pay_all_no_release_before_last_slot_cas");
             if r.ok {
